@@ -12,7 +12,7 @@ RI = Macro("RI", ["c"],
            "implies(u.haslab, Cat(c)[u.lab]) and c.bound_inf <= u.s and u.e <= c.bound_sup and implies(not u.haslab, u.lab == 0)))")
 SAME_VIEW = Macro("same_view", ["c"],
                   "Ann(c) == old(Ann(c)) and Us(c) == old(Us(c)) and Cat(c) == old(Cat(c)) and "
-                  "c.bound_inf == old(c.bound_inf) and c.bound_sup == old(c.bound_sup)")
+                  "c.bound_inf == old(c.bound_inf) and c.bound_sup == old(c.bound_sup) and c.best_window_size == old(c.best_window_size)")
 EMPTY_U = Macro("no_units", ["S"], "forall([(u, Unit)], not S[u])")
 NUM_UNITS = Macro("NumUnits", ["c"], "psum(lam(k, Cnt(c)[Kseq(c)[k]]), Nkeys(c))")
 VIEW_MACROS = [RI, SAME_VIEW, EMPTY_U, NUM_UNITS]
